@@ -29,7 +29,7 @@ def stepVF (f : VFile) (args : List String) : VFile × String :=
   | ["new", ws] => ({ ws := ws == "1" }, "ok")
   | ["push", n] =>
     match n.toNat? with
-    | some k => (f.pushBack ⟨"k", 0, k, k⟩, "ok")
+    | some k => (f.pushBack ⟨"k", 0, k, k, none⟩, "ok")
     | none => (f, "bad-op")
   | ["popf"] => let r := f.popFront; (r.2, showVer r.1)
   | ["popb"] => let r := f.popBack; (r.2, showVer r.1)
@@ -143,7 +143,7 @@ def parseOp (args : List String) : Option Op :=
 /-- sequential system sub-protocol (`sys …`): answers `<concrete model>\t<abstract spec>` -/
 def stepSys (st : St) (args : List String) : St × String :=
   match args with
-  | ["new", g] => ({ st with sys := { guardWrites := g == "1" }, spec := {} }, "ok\tok")
+  | ["new", _] => ({ st with sys := {}, spec := {} }, "ok\tok")
   | _ =>
     match parseOp args with
     | none => (st, "bad-op\tbad-op")
